@@ -253,8 +253,9 @@ def main(argv=None):
     if verdict == 'violated':
         return 1
     if verdict == 'inconclusive':
-        for r in inconclusive[:10]:
-            print(f'INCONCLUSIVE property={a.prop} reason={r}')
+        for r in inconclusive[:5]:
+            r1 = ' '.join(str(r).split())
+            print(f'INCONCLUSIVE property={a.prop} reason={r1[:400]}')
         return 2
     return 0
 
